@@ -1,1 +1,430 @@
-//! placeholder
+//! G-TREE: generated document trees (with secrets planted outside the served root), M-LOOKUP and M-MIME.
+#![allow(dead_code)]
+use super::hash64;
+use proptest::prelude::*;
+use serde::{Deserialize, Serialize};
+use std::path::{Path, PathBuf};
+
+// ---- M-MIME: the harness's transcription of the extension table ----------------------------------
+pub const EXT_TABLE: &[(&str, &str)] = &[
+    ("txt", "text/plain"), ("css", "text/css"), ("html", "text/html"), ("htm", "text/html"), ("js", "text/javascript"), ("mjs", "text/javascript"),
+    ("apng", "image/apng"), ("avif", "image/avif"), ("gif", "image/gif"), ("svg", "image/svg+xml"),
+    ("jpg", "image/jpeg"), ("jpeg", "image/jpeg"), ("jpe", "image/jpeg"), ("jif", "image/jpeg"), ("jfif", "image/jpeg"),
+    ("png", "image/png"), ("webp", "image/webp"), ("bmp", "image/bmp"), ("ico", "image/x-icon"), ("cur", "image/x-icon"), ("tif", "image/tiff"), ("tiff", "image/tiff"),
+    ("aac", "audio/aac"), ("flac", "audio/flac"), ("wav", "audio/wav"), ("m4a", "audio/mp4"), ("oga", "audio/oga"), ("3gp", "video/3gpp"),
+    ("mpg", "video/mpeg"), ("mpeg", "video/mpeg"), ("mp4", "video/mp4"), ("m4v", "video/mp4"), ("m4p", "video/mp4"), ("ogg", "video/ogg"), ("ogv", "video/ogg"),
+    ("mov", "video/quicktime"), ("webm", "video/webm"), ("abw", "application/x-abiword"), ("avi", "video/x-msvideo"), ("azw", "application/vnd.amazon.ebook"),
+    ("bin", "application/octet-stream"), ("bz", "application/x-bzip"), ("bz2", "application/x-bzip2"), ("cda", "application/x-cdf"), ("csh", "application/x-csh"),
+    ("csv", "text/csv"), ("doc", "application/msword"), ("docx", "application/vnd.openxmlformats-officedocument.wordprocessingml.document"),
+    ("eot", "application/vnd.ms-fontobject"), ("epub", "application/epub+zip"), ("gz", "application/gzip"), ("ics", "text/calendar"), ("jar", "application/java-archive"),
+    ("json", "application/json"), ("jsonld", "application/ld+json"), ("midi", "audio/midi"), ("mid", "audio/midi"), ("mp3", "audio/mpeg"),
+    ("mpkg", "application/vnd.apple.installer+xml"), ("odp", "application/vnd.oasis.opendocument.presentation"), ("ods", "application/vnd.oasis.opendocument.spreadsheet"),
+    ("odt", "application/vnd.oasis.opendocument.text"), ("ogx", "application/ogg"), ("opus", "audio/opus"), ("otf", "font/otf"), ("pdf", "application/pdf"),
+    ("php", "application/x-httpd-php"), ("ppt", "application/vnd.ms-powerpoint"), ("pptx", "application/vnd.openxmlformats-officedocument.presentationml.presentation"),
+    ("rar", "application/vnd.rar"), ("rtf", "application/rtf"), ("sh", "application/x-sh"), ("swf", "application/x-shockwave-flash"), ("tar", "application/x-tar"),
+    ("ts", "video/mp2t"), ("ttf", "font/ttf"), ("vsd", "application/vnd.visio"), ("weba", "audio/webm"), ("woff", "font/woff"), ("woff2", "font/woff2"),
+    ("xhtml", "application/xhtml+xml"), ("xls", "application/vnd.ms-excel"), ("xlsx", "application/vnd.openxmlformats-officedocument.spreadsheetml.sheet"),
+    ("xml", "application/xml"), ("xul", "application/vnd.mozilla.xul+xml"), ("zip", "application/zip"), ("7z", "application/x-7z-compressed"), ("3g2", "video/3gpp2"),
+    ("crt", "application/x-x509-ca-cert"),
+];
+pub const DEFAULT_MIME: &str = "application/octet-stream";
+
+/// Extension of a file name: text after the last dot, if the dot is not the first character and something follows it.
+pub fn extension_of(name: &str) -> Option<&str> {
+    let base = name.rsplit('/').next().unwrap_or(name);
+    match base.rfind('.') { Some(0) | None => None, Some(i) if i + 1 < base.len() => Some(&base[i + 1..]), _ => None }
+}
+
+/// Acceptable media types for a file name (usually one).
+pub fn mime_candidates(name: &str) -> Vec<&'static str> {
+    match extension_of(name) {
+        None => vec![DEFAULT_MIME],
+        Some(ext) => {
+            if let Some((_, t)) = EXT_TABLE.iter().find(|(e, _)| *e == ext) {
+                if ext == "oga" { return vec!["audio/oga", "audio/ogg"]; } // rws's constant spells the registered audio/ogg as audio/oga; either is accepted
+                return vec![t];
+            }
+            // extension in other letter case: the table is lower case; "registered for its extension" can be read either way
+            let lower = ext.to_lowercase();
+            if let Some((_, t)) = EXT_TABLE.iter().find(|(e, _)| *e == lower) { return vec![DEFAULT_MIME, t]; }
+            vec![DEFAULT_MIME]
+        }
+    }
+}
+
+// ---- tree specification ---------------------------------------------------------------------------
+#[derive(Clone, Debug, Serialize, Deserialize, PartialEq, Eq, Hash)]
+pub enum EntrySpec {
+    File { name: String, size: u32 },
+    Dir { name: String, index: Option<u32>, entries: Vec<EntrySpec> },
+    /// symlink to a regular file inside the root (target chosen among files created before it); style selects the spelling of the link text
+    LinkToFile { name: String, target: u16, style: u8 },
+    /// symlink to a designated linked-ok file outside the root (RWSV-LINKED marker)
+    LinkToOutsideFile { name: String, size: u32, absolute: bool },
+    /// symlink to a directory inside the root
+    LinkToDir { name: String, target: u16 },
+    /// symlink to a designated directory outside the root (which contains linked-ok files and has a secret NEXT to it)
+    LinkToOutsideDir { name: String },
+    /// link -> link -> file
+    LinkChain { name: String, target: u16 },
+}
+
+impl EntrySpec {
+    pub fn name(&self) -> &str {
+        match self {
+            EntrySpec::File { name, .. } | EntrySpec::Dir { name, .. } | EntrySpec::LinkToFile { name, .. } | EntrySpec::LinkToOutsideFile { name, .. }
+            | EntrySpec::LinkToDir { name, .. } | EntrySpec::LinkToOutsideDir { name } | EntrySpec::LinkChain { name, .. } => name,
+        }
+    }
+}
+
+#[derive(Clone, Debug, Serialize, Deserialize, PartialEq, Eq, Hash)]
+pub struct TreeSpec {
+    pub levels_above: u8,
+    pub root_name: String,
+    pub root_index: Option<u32>,
+    pub root_404: Option<u32>,
+    pub entries: Vec<EntrySpec>,
+    pub salt: u64,
+}
+
+pub const RESERVED_ROOT: [&str; 10] = ["style.css", "script.js", "favicon.svg", "form-get-method", "form-url-encoded-enctype-post-method", "form-multipart-enctype-post-method", "file-upload", "index.html", "404.html", "rws.config.toml"];
+
+pub fn size_strategy(thorough: bool) -> impl Strategy<Value = u32> {
+    let big: Vec<u32> = if thorough { vec![65535, 65536, 65537, 1048575, 1048576, 1048577] } else { vec![65535, 65536, 65537] };
+    prop_oneof![
+        3 => prop::sample::select(vec![0u32, 1, 2, 3]),
+        6 => 4u32..600,
+        2 => prop::sample::select(vec![4095u32, 4096, 4097, 8191, 8192, 8193, 9999, 10000, 10001]),
+        1 => prop::sample::select(big),
+    ]
+}
+
+pub fn stem_strategy() -> impl Strategy<Value = String> {
+    prop_oneof![
+        8 => "[A-Za-z0-9_-]{1,12}",
+        2 => ("[A-Za-z0-9_-]{1,6}", "[A-Za-z0-9_-]{1,6}").prop_map(|(a, b)| format!("{}.{}", a, b)),
+        1 => ("[a-z0-9]{1,4}", "[a-z0-9]{1,4}", "[a-z0-9]{1,4}").prop_map(|(a, b, c)| format!("{}.{}.{}", a, b, c)),
+        1 => ("[a-z0-9]{1,4}", "[a-z0-9]{1,4}").prop_map(|(a, b)| format!("{}..{}", a, b)),
+        2 => ("[A-Za-z0-9]{0,5}", prop::sample::select(vec!["é", "ж", "中", "ü", "日本", "ñandú"]), "[A-Za-z0-9]{0,5}").prop_map(|(a, m, b)| format!("{}{}{}", a, m, b)),
+    ].prop_filter("leading dash or dot", |s| !s.starts_with('.') && !s.starts_with('-'))
+}
+
+pub fn file_name_strategy() -> impl Strategy<Value = String> {
+    let exts: Vec<&'static str> = EXT_TABLE.iter().map(|(e, _)| *e).collect();
+    prop_oneof![
+        70 => (stem_strategy(), prop::sample::select(exts.clone())).prop_map(|(s, e)| format!("{}.{}", s, e)),
+        10 => (stem_strategy(), prop::sample::select(vec!["html", "html", "txt", "htm"])).prop_map(|(s, e)| format!("{}.{}", s, e)),
+        10 => (stem_strategy(), prop::sample::select(vec!["dat", "rs", "md", "x", "yaml", "log", "htmlx", "tx", "jsonx", "wasm"])).prop_map(|(s, e)| format!("{}.{}", s, e)),
+        3 => (stem_strategy(), prop::sample::select(vec!["TXT", "Html", "PNG", "Js"])).prop_map(|(s, e)| format!("{}.{}", s, e)),
+        12 => "[A-Za-z0-9_]{1,10}",
+    ]
+}
+
+fn entry_strategy(depth: u32, thorough: bool) -> BoxedStrategy<EntrySpec> {
+    let file = (file_name_strategy(), size_strategy(thorough)).prop_map(|(name, size)| EntrySpec::File { name, size });
+    let links = prop_oneof![
+        3 => (file_name_strategy(), any::<u16>(), 0u8..4).prop_map(|(name, target, style)| EntrySpec::LinkToFile { name, target, style }),
+        2 => (file_name_strategy(), 1u32..300, any::<bool>()).prop_map(|(name, size, absolute)| EntrySpec::LinkToOutsideFile { name, size, absolute }),
+        1 => (stem_strategy(), any::<u16>()).prop_map(|(name, target)| EntrySpec::LinkToDir { name, target }),
+        2 => stem_strategy().prop_map(|name| EntrySpec::LinkToOutsideDir { name }),
+        1 => (file_name_strategy(), any::<u16>()).prop_map(|(name, target)| EntrySpec::LinkChain { name, target }),
+    ];
+    if depth == 0 {
+        prop_oneof![8 => file, 2 => links].boxed()
+    } else {
+        let dir = (stem_strategy(), proptest::option::weighted(0.6, size_strategy(false)), proptest::collection::vec(entry_strategy(depth - 1, thorough), 0..5))
+            .prop_map(|(name, index, entries)| EntrySpec::Dir { name, index, entries });
+        prop_oneof![6 => file, 3 => dir, 2 => links].boxed()
+    }
+}
+
+pub fn tree_strategy(thorough: bool) -> impl Strategy<Value = TreeSpec> {
+    (1u8..=5, "[a-z][a-z0-9]{2,7}", proptest::option::weighted(0.3, 1u32..400), proptest::option::weighted(0.3, 1u32..400),
+     proptest::collection::vec(entry_strategy(3, thorough), 1..12), any::<u64>())
+        .prop_map(|(levels_above, root_name, root_index, root_404, entries, salt)| TreeSpec { levels_above, root_name, root_index, root_404, entries, salt })
+}
+
+// ---- content ----------------------------------------------------------------------------------------
+pub fn marker(kind: &str, salt: u64, key: &str) -> String {
+    format!("RWSV-{}-{:016x}{:016x}", kind, hash64(&(salt, key, 1u8)), hash64(&(salt, key, 2u8)))
+}
+
+/// File content: marker, then filler; every byte value occurs in files >= 512 bytes. Never contains CRLF--String_separator.
+pub fn content(kind: &str, salt: u64, key: &str, size: usize) -> Vec<u8> {
+    let m = marker(kind, salt, key);
+    if kind == "SECRET" {
+        // secrets consist of their marker only (repeated), so that no 12-byte window of a secret occurs in any legitimate content
+        let mut v = Vec::with_capacity(size + m.len() + 1);
+        while v.len() < size { v.extend_from_slice(m.as_bytes()); v.push(b'|'); }
+        return v;
+    }
+    let mut v: Vec<u8> = Vec::with_capacity(size);
+    v.extend_from_slice(m.as_bytes());
+    v.push(b'\n');
+    let mut x = hash64(&(salt, key, 3u8));
+    let mut i = 0usize;
+    while v.len() < size {
+        if i < 256 { v.push(i as u8); } else {
+            x ^= x << 13; x ^= x >> 7; x ^= x << 17;
+            v.push((x >> 24) as u8);
+        }
+        i += 1;
+    }
+    v.truncate(size);
+    v
+}
+
+// ---- materialised tree --------------------------------------------------------------------------------
+#[derive(Clone, Debug)]
+pub struct Secret { pub abs: PathBuf, pub marker: String, pub up: usize, pub name: String, pub shape: &'static str }
+
+#[derive(Clone, Debug)]
+pub struct TFile { pub url: String, pub marker: String, pub kind: &'static str }
+
+#[derive(Clone, Debug)]
+pub struct TDir { pub url: String, pub has_index: bool, pub names: Vec<String>, pub outside: bool }
+
+pub struct Tree {
+    pub base: PathBuf,
+    pub root: PathBuf,
+    pub spec: TreeSpec,
+    /// url paths (from the root) of regular files and of links resolving to regular files
+    pub files: Vec<TFile>,
+    pub dirs: Vec<TDir>,
+    pub secrets: Vec<Secret>,
+    /// names of the ancestor directories, from the root's parent upwards
+    pub ancestor_names: Vec<String>,
+    /// links to outside directories: (url of link, name of the secret file lying next to the outside directory)
+    pub outside_dir_links: Vec<(String, String)>,
+    pub all_markers: Vec<(String, String)>,
+}
+
+impl Drop for Tree {
+    fn drop(&mut self) { let _ = std::fs::remove_dir_all(&self.base); }
+}
+
+static TREE_COUNTER: std::sync::atomic::AtomicU64 = std::sync::atomic::AtomicU64::new(0);
+
+fn uniq(names: &mut Vec<String>, name: &str, at_root: bool) -> Option<String> {
+    let n = name.to_string();
+    if names.iter().any(|x| x.eq_ignore_ascii_case(&n)) { return None; }
+    if at_root && RESERVED_ROOT.iter().any(|r| r.eq_ignore_ascii_case(&n) || n.to_lowercase().starts_with("file-upload")) { return None; }
+    // a name X whose X.html also exists is allowed (overlap class); nothing else to check
+    names.push(n.clone());
+    Some(n)
+}
+
+impl Tree {
+    pub fn materialise(spec: &TreeSpec, scratch: &Path) -> std::io::Result<Tree> {
+        let n = TREE_COUNTER.fetch_add(1, std::sync::atomic::Ordering::SeqCst);
+        let base = scratch.join(format!("rwsv-tree-{}-{}", std::process::id(), n));
+        let _ = std::fs::remove_dir_all(&base);
+        std::fs::create_dir_all(&base)?;
+        let mut t = Tree { base: base.clone(), root: PathBuf::new(), spec: spec.clone(), files: vec![], dirs: vec![], secrets: vec![], ancestor_names: vec![], outside_dir_links: vec![], all_markers: vec![] };
+        let salt = spec.salt;
+        // ancestors: base/a1/a2/.../aN/root ; secrets at every level including base
+        let mut dir = base.clone();
+        let mut level_dirs = vec![dir.clone()];
+        for k in 0..spec.levels_above.max(1) {
+            let name = format!("anc{}", k);
+            dir = dir.join(&name);
+            std::fs::create_dir_all(&dir)?;
+            level_dirs.push(dir.clone());
+        }
+        let root = dir.join(&spec.root_name);
+        std::fs::create_dir_all(&root)?;
+        t.root = root.clone();
+        // level_dirs.last() is the root's parent (up = 1)
+        let nlev = level_dirs.len();
+        for (i, d) in level_dirs.iter().enumerate() {
+            let up = nlev - i;
+            if i + 1 < nlev { /* name of child ancestor */ }
+            for (name, shape) in [(format!("secret-{}.txt", up), "file"), ("index.html".to_string(), "index"), (format!("page-{}.html", up), "html-fallback")] {
+                let key = format!("secret/{}/{}", up, name);
+                let m = marker("SECRET", salt, &key);
+                std::fs::write(d.join(&name), content("SECRET", salt, &key, 120))?;
+                t.secrets.push(Secret { abs: d.join(&name), marker: m, up, name: name.clone(), shape });
+            }
+        }
+        for i in (0..nlev).rev() { t.ancestor_names.push(level_dirs[i].file_name().map(|s| s.to_string_lossy().to_string()).unwrap_or_default()); }
+        // siblings whose name has the root's name as a prefix
+        let parent = level_dirs.last().unwrap().clone();
+        for sib in [format!("{}-sibling", spec.root_name), format!("{}x", spec.root_name)] {
+            let sd = parent.join(&sib);
+            std::fs::create_dir_all(&sd)?;
+            for (name, shape) in [("secret-s.txt".to_string(), "sibling-file"), ("index.html".to_string(), "sibling-index")] {
+                let key = format!("sibling/{}/{}", sib, name);
+                std::fs::write(sd.join(&name), content("SECRET", salt, &key, 100))?;
+                t.secrets.push(Secret { abs: sd.join(&name), marker: marker("SECRET", salt, &key), up: 1, name: format!("{}/{}", sib, name), shape });
+            }
+        }
+        // outside area for owner-placed links: parent/linked-area/{ok-dir/{f.txt,index.html}, beside.txt (SECRET next to the linked dir)}
+        let linked_area = parent.join("linked-area");
+        std::fs::create_dir_all(linked_area.join("ok-dir"))?;
+        for name in ["f.txt", "index.html", "p.html"] {
+            let key = format!("linked/ok-dir/{}", name);
+            std::fs::write(linked_area.join("ok-dir").join(name), content("LINKED", salt, &key, 90))?;
+        }
+        {
+            let key = "secret/beside-linked-dir".to_string();
+            std::fs::write(linked_area.join("beside.txt"), content("SECRET", salt, &key, 100))?;
+            t.secrets.push(Secret { abs: linked_area.join("beside.txt"), marker: marker("SECRET", salt, &key), up: 0, name: "beside.txt".into(), shape: "beside-linked-dir" });
+            let key = "secret/beside-linked-dir-index".to_string();
+            std::fs::write(linked_area.join("index.html"), content("SECRET", salt, &key, 100))?;
+            t.secrets.push(Secret { abs: linked_area.join("index.html"), marker: marker("SECRET", salt, &key), up: 0, name: "index.html".into(), shape: "beside-linked-dir" });
+        }
+        if let Some(sz) = spec.root_index { std::fs::write(root.join("index.html"), content("FILE", salt, "/index.html", sz.max(60) as usize))?; t.files.push(TFile { url: "/index.html".into(), marker: marker("FILE", salt, "/index.html"), kind: "root-index" }); }
+        if let Some(sz) = spec.root_404 { std::fs::write(root.join("404.html"), content("FILE", salt, "/404.html", sz.max(60) as usize))?; t.files.push(TFile { url: "/404.html".into(), marker: marker("FILE", salt, "/404.html"), kind: "root-404" }); }
+        let mut created_files: Vec<String> = vec![];
+        let mut created_dirs: Vec<String> = vec![];
+        let mut link_seq = 0u32;
+        t.build_dir(&root.clone(), "", &spec.entries, true, &mut created_files, &mut created_dirs, &linked_area, &mut link_seq)?;
+        let mut rootnames: Vec<String> = std::fs::read_dir(&root)?.filter_map(|e| e.ok()).map(|e| e.file_name().to_string_lossy().to_string()).collect();
+        rootnames.sort();
+        t.dirs.push(TDir { url: "/".into(), has_index: spec.root_index.is_some(), names: rootnames, outside: false });
+        Ok(t)
+    }
+
+    fn build_dir(&mut self, dir: &Path, url: &str, entries: &[EntrySpec], at_root: bool, files: &mut Vec<String>, dirs: &mut Vec<String>, linked_area: &Path, link_seq: &mut u32) -> std::io::Result<()> {
+        let salt = self.spec.salt;
+        let mut names: Vec<String> = vec![];
+        if at_root { if self.spec.root_index.is_some() { names.push("index.html".into()); } if self.spec.root_404.is_some() { names.push("404.html".into()); } }
+        for e in entries {
+            let name = match uniq(&mut names, e.name(), at_root) { Some(n) => n, None => continue };
+            let eurl = format!("{}/{}", url, name);
+            let path = dir.join(&name);
+            match e {
+                EntrySpec::File { size, .. } => {
+                    let sz = *size as usize;
+                    std::fs::write(&path, content_sized(salt, &eurl, sz))?;
+                    self.files.push(TFile { url: eurl.clone(), marker: marker("FILE", salt, &eurl), kind: "file" });
+                    files.push(eurl);
+                }
+                EntrySpec::Dir { index, entries, .. } => {
+                    std::fs::create_dir_all(&path)?;
+                    dirs.push(eurl.clone());
+                    if let Some(sz) = index {
+                        let iurl = format!("{}/index.html", eurl);
+                        std::fs::write(path.join("index.html"), content_sized(salt, &iurl, (*sz).max(1) as usize))?;
+                        self.files.push(TFile { url: iurl.clone(), marker: marker("FILE", salt, &iurl), kind: "dir-index" });
+                        files.push(iurl);
+                    }
+                    self.build_dir(&path, &eurl, entries, false, files, dirs, linked_area, link_seq)?;
+                    let mut n: Vec<String> = std::fs::read_dir(&path)?.filter_map(|e| e.ok()).map(|e| e.file_name().to_string_lossy().to_string()).collect();
+                    n.sort();
+                    self.dirs.push(TDir { url: eurl, has_index: index.is_some(), names: n, outside: false });
+                }
+                EntrySpec::LinkToFile { target, style, .. } => {
+                    if files.is_empty() { names.pop(); continue; }
+                    let turl = files[super::util::pick_idx(*target, files.len())].clone();
+                    let tabs = self.root.join(&turl[1..]);
+                    let text = link_text(dir, &tabs, *style);
+                    std::os::unix::fs::symlink(&text, &path)?;
+                    self.files.push(TFile { url: eurl, marker: marker("FILE", salt, &turl), kind: "link-to-file" });
+                }
+                EntrySpec::LinkChain { target, .. } => {
+                    if files.is_empty() { names.pop(); continue; }
+                    let turl = files[super::util::pick_idx(*target, files.len())].clone();
+                    let tabs = self.root.join(&turl[1..]);
+                    *link_seq += 1;
+                    let mid = format!("mid{}lnk", link_seq);
+                    if uniq(&mut names, &mid, at_root).is_none() { names.pop(); continue; }
+                    std::os::unix::fs::symlink(&tabs, dir.join(&mid))?;
+                    std::os::unix::fs::symlink(&mid, &path)?;
+                    self.files.push(TFile { url: format!("{}/{}", url, mid), marker: marker("FILE", salt, &turl), kind: "link-to-file" });
+                    self.files.push(TFile { url: eurl, marker: marker("FILE", salt, &turl), kind: "link-chain" });
+                }
+                EntrySpec::LinkToOutsideFile { size, absolute, .. } => {
+                    *link_seq += 1;
+                    let oname = format!("ok{}-{}", link_seq, name);
+                    let key = format!("linked/file/{}", oname);
+                    let opath = linked_area.join(&oname);
+                    std::fs::write(&opath, content("LINKED", salt, &key, (*size).max(50) as usize))?;
+                    let text = if *absolute { opath.clone() } else { PathBuf::from(link_text(dir, &opath, 1)) };
+                    std::os::unix::fs::symlink(&text, &path)?;
+                    self.files.push(TFile { url: eurl, marker: marker("LINKED", salt, &key), kind: "link-to-outside-file" });
+                }
+                EntrySpec::LinkToDir { target, .. } => {
+                    if dirs.is_empty() { names.pop(); continue; }
+                    let turl = dirs[super::util::pick_idx(*target, dirs.len())].clone();
+                    // never link to an ancestor of this directory (would make the walk infinite)
+                    if url.starts_with(&turl) { names.pop(); continue; }
+                    let tabs = self.root.join(&turl[1..]);
+                    std::os::unix::fs::symlink(&tabs, &path)?;
+                    let has_index = tabs.join("index.html").is_file();
+                    let mut n: Vec<String> = std::fs::read_dir(&tabs)?.filter_map(|e| e.ok()).map(|e| e.file_name().to_string_lossy().to_string()).collect();
+                    n.sort();
+                    if has_index { self.files.push(TFile { url: format!("{}/index.html", eurl), marker: marker("FILE", salt, &format!("{}/index.html", turl)), kind: "via-link-to-dir" }); }
+                    self.dirs.push(TDir { url: eurl, has_index, names: n, outside: false });
+                }
+                EntrySpec::LinkToOutsideDir { .. } => {
+                    std::os::unix::fs::symlink(linked_area.join("ok-dir"), &path)?;
+                    for f in ["f.txt", "index.html", "p.html"] {
+                        self.files.push(TFile { url: format!("{}/{}", eurl, f), marker: marker("LINKED", salt, &format!("linked/ok-dir/{}", f)), kind: "via-link-to-outside-dir" });
+                    }
+                    self.dirs.push(TDir { url: eurl.clone(), has_index: true, names: vec!["f.txt".into(), "index.html".into(), "p.html".into()], outside: true });
+                    self.outside_dir_links.push((eurl, "beside.txt".into()));
+                }
+            }
+        }
+        Ok(())
+    }
+
+    pub fn abs(&self, url: &str) -> PathBuf { self.root.join(url.trim_start_matches('/')) }
+}
+
+fn content_sized(salt: u64, url: &str, size: usize) -> Vec<u8> {
+    // small files cannot hold the marker; they hold its prefix
+    content("FILE", salt, url, size)
+}
+
+fn link_text(from_dir: &Path, target_abs: &Path, style: u8) -> String {
+    // relative path from from_dir to target_abs
+    let f: Vec<_> = from_dir.components().collect();
+    let t: Vec<_> = target_abs.components().collect();
+    let mut i = 0;
+    while i < f.len() && i < t.len() && f[i] == t[i] { i += 1; }
+    let mut rel = PathBuf::new();
+    for _ in i..f.len() { rel.push(".."); }
+    for c in &t[i..] { rel.push(c.as_os_str()); }
+    let rel = rel.to_string_lossy().to_string();
+    match style {
+        0 | 1 => rel,
+        2 => format!("./{}", rel),
+        _ => target_abs.to_string_lossy().to_string(),
+    }
+}
+
+// ---- M-LOOKUP --------------------------------------------------------------------------------------
+#[derive(Clone, Debug, PartialEq, Eq)]
+pub enum Selected {
+    /// a regular file on disk (path as the lookup spelt it, not canonicalised) selected by `rule`
+    File { path: PathBuf, rule: &'static str },
+    /// the built-in page/asset of the server (no file of that name in the root)
+    BuiltIn(&'static str),
+    Nothing,
+}
+
+/// The documented lookup for a path (no query/fragment) under `root`: special routes, the file itself, index.html inside the
+/// directory, the file with .html appended.
+pub fn lookup(root: &Path, path: &str) -> Selected {
+    match path {
+        "/" => return if root.join("index.html").is_file() { Selected::File { path: root.join("index.html"), rule: "root-index" } } else { Selected::BuiltIn("index") },
+        "/style.css" => return if root.join("style.css").is_file() { Selected::File { path: root.join("style.css"), rule: "asset" } } else { Selected::BuiltIn("style.css") },
+        "/script.js" => return if root.join("script.js").is_file() { Selected::File { path: root.join("script.js"), rule: "asset" } } else { Selected::BuiltIn("script.js") },
+        "/favicon.svg" => return if root.join("favicon.svg").is_file() { Selected::File { path: root.join("favicon.svg"), rule: "asset" } } else { Selected::BuiltIn("favicon.svg") },
+        _ => {}
+    }
+    if !path.starts_with('/') { return Selected::Nothing; }
+    let p = PathBuf::from(format!("{}{}", root.display(), path));
+    if p.is_file() { return Selected::File { path: p, rule: "file" }; }
+    if p.is_dir() {
+        let idx = p.join("index.html");
+        if idx.is_file() { return Selected::File { path: idx, rule: "dir-index" }; }
+        return Selected::Nothing;
+    }
+    let h = PathBuf::from(format!("{}{}.html", root.display(), path));
+    if !path.ends_with('/') && h.is_file() { return Selected::File { path: h, rule: "html-fallback" }; }
+    Selected::Nothing
+}
